@@ -694,7 +694,12 @@ func c08Wiring(p *Prog, r *Report) {
 		})
 		return ev.May(hook)
 	}
-	r.Check(mayCall("Rewrite") && mayCall("modifyRequest"), "C08.R6", "forward.New: the hook rewrites path and forwarding headers", p.FuncPos(hook), "calls the request modifier and the header rewriter", "the installed hook does not call both the request modifier and the header rewriter")
+	// the request modifier by role: the hook (through static callees) stores the outgoing URL.RawPath
+	modifies := NewEvents(p, func(in ssa.Instruction) bool {
+		st, ok := in.(*ssa.Store)
+		return ok && reqFieldStore(st, "URL", "RawPath")
+	})
+	r.Check(mayCall("Rewrite") && modifies.May(hook), "C08.R6", "forward.New: the hook rewrites path and forwarding headers", p.FuncPos(hook), "calls the request modifier and the header rewriter", "the installed hook does not call both the request modifier and the header rewriter")
 	// the module's hook must not strip Connection / the hop-by-hop list itself
 	hop := NewEvents(p, func(in ssa.Instruction) bool {
 		cc := CallCommonOf(in)
